@@ -50,16 +50,15 @@ PROPS = {
         assumptions=["(sender, sequence) unique among pending (Admissible); for 'every pending transaction is yielded' additionally no pending priority equals MinInt64 (NoMin, proved necessary: select_complete_false_at_minvalue); CheckTx priority < MaxInt64-3 for the class clause (proved necessary: classes_false_at_bound); both hold in the wired application because TxFeeSkipper returns 42 for every transaction (theorem mempool_app; the function is exercised by the harness, the wiring TxFeeChecker: TxFeeSkipper in app/app.go is read from the source)"],
     ),
     "C02": dict(
-        lean_modules=["PalomaModel.Props.C02"], gen=["Consts.lean"],
+        lean_modules=["PalomaModel.Props.C02"], gen=["Consts.lean", "Claims.lean", "Auth.lean"],
         harness_test="TestC02",
         n_quick=150, n_thorough=2000, thorough_seeds=8, timeout_quick=900,
         # every observable of the oracle driver (cursor, observed flags, vote lists, minted total) is the property's own subject
-        spec_ops=["vote", "endblock", "endblock50", "override"],
+        spec_ops=["vote", "endblock", "endblock50", "override", "activate"],
         rule="per case: fresh skyway keeper fixture with 5 validators; 45 ops: votes (random validator or bursts of 2-4 validators, next/stale/gapped nonce, up to 3 competing deposit claims per nonce incl. one the handler cannot apply, "
              "occasionally a remote height below an earlier one), end-blocks that first install a fresh power table (equal / tiny / random powers, extra outside power) and then tally (every 4th one at a multiple of 50: validator-nonce catch-up), "
              "governance nonce overrides to last / last-1 / ahead; distinct = distinct op text; non-trivial = at least one attestation became observed",
-        trusted_base=[SDK_TRUST, "claim hashes are treated as injective identities (tmhash collision freeness); the claim's content is C11's subject",
-                      "one remote chain and one bridge deployment id (claims of other deployments are filtered out by GetAttestationMapping)"],
+        trusted_base=[SDK_TRUST, "pointwise hash collision freeness on the claims of the history (NoCollisionAt)", "per-chain stores are disjoint (applyM); the harness drives one chain with several bridge deployments"],
         assumptions=["validators stay bonded (checkOrchestratorValidatorInSet); pruning (cutoff 1000 nonces) is not reached"],
     ),
     "C13": dict(
@@ -146,7 +145,7 @@ PROPS = {
              "keeper layer on the full app: bond / unbond / jail / external-account registration / chain activation / snapshot build / on-chain activation sequences, observing FindSnapshotByID for every id after every op and the UpdateValset messages in the queue; "
              "distinct = distinct op text; non-trivial = a snapshot or valset was produced",
         trusted_base=[SDK_TRUST, "staking state and relayer-pick success are inputs of the model (observed with the real calls)"],
-        assumptions=["StakingWF: the staking iterator yields each validator once (SDK staking store is keyed by operator address) - used only for the each-exactly-once clause; the model itself does not deduplicate (theorem staking_assumption_needed)"],
+        assumptions=["StakingWF (SDK staking, an input of the model): the iterator yields each validator once AND bonded => tokens > 0 (staking EndBlock runs before valset EndBlock and leaves Bonded only validators with consensus power >= 1) - used for each-exactly-once, stored_total_pos, build_never_panics; necessity: staking_assumption_needed, bonded_positive_needed", "RegsEvmTyped (registered accounts are EVM-typed; NOT enforced by /repo) - only for the any-account reading of 'restricted to validators with an account there', which is otherwise refuted (sent_restricted_any_account_violated; known finding C10-account-type)"],
     ),
     "C05": dict(
         lean_modules=["PalomaModel.Props.C05"],
